@@ -10,8 +10,10 @@
 (*   marshal            result backed by Fresh (never by Pool)             *)
 (*   unmarshal(k, zc)   decoded strings / numbers / raw messages backed by *)
 (*                      Fresh, or by Input(k) when zc (zero-copy flags)    *)
-(*   decode             values from a Decoder: backed by Fresh (never by   *)
-(*                      DecBuf, which later calls compact and refill)      *)
+(*   decode(t)          values from a Decoder into a target of kind t (a   *)
+(*                      struct with every kind of field, a top-level       *)
+(*                      RawMessage, an interface): backed by Fresh (never  *)
+(*                      by DecBuf, which later calls compact and refill)   *)
 (*   tokstring(k)       Tokenizer.String: may alias Input(k)               *)
 (*   overwrite(k)       the caller scribbles over Input(k)                 *)
 (*   churn              many further library calls (pools re-acquired,     *)
@@ -32,7 +34,8 @@ VARIABLES hist,      \* sequence of actions [op, k, zc]
 
 vars == <<hist, results, dirty, may>>
 
-Act(op, k, zc) == [op |-> op, k |-> k, zc |-> zc]
+Act(op, k, zc) == [op |-> op, k |-> k, zc |-> zc, t |-> ""]
+Targets == {"struct", "raw", "any"}
 
 \* regions a result may be backed by
 Backing(r) == IF (r.op = "unmarshal" /\ r.zc) \/ r.op = "tokstring" THEN {"Fresh", "Input"} ELSE {"Fresh"}
@@ -48,7 +51,7 @@ Step(a) ==
   /\ may' = Append(may, MayChange(results', dirty'))
 
 Next == \/ Step(Act("marshal", 0, FALSE))
-        \/ Step(Act("decode", 0, FALSE))
+        \/ \E t \in Targets : Step([Act("decode", 0, FALSE) EXCEPT !.t = t])
         \/ Step(Act("churn", 0, FALSE))
         \/ \E k \in Inputs, zc \in BOOLEAN : k \notin dirty /\ Step(Act("unmarshal", k, zc))   \* a lent input is intact when used
         \/ \E k \in Inputs : k \notin dirty /\ Step(Act("tokstring", k, FALSE))
